@@ -1,4 +1,5 @@
 import TaskModel.Resolve.Table
+import TaskModel.Resolve.Suggest
 import Driver.Util
 namespace Driver.Resolve
 open TaskModel.Resolve Driver
@@ -39,10 +40,49 @@ def doGet : List String → Option String
     | _ => none
   | _ => none
 
+/-- `resolve.run <k> <entries…> <n> <req>{n}` → `refused <code> ran -` | `ok ran <i>*`: the
+outcome of `Executor.Run` on the requests — which tasks ran, in order, or the error class of
+the first request that does not resolve (then nothing ran). -/
+def doRun : List String → Option String
+  | k :: r => do
+    let k ← k.toNat?
+    let (tbl, r') ← parseTable k r
+    match r' with
+    | n :: reqs =>
+      let n ← n.toNat?
+      if reqs.length ≠ n then none else
+      let reqs ← reqs.mapM unhexChars
+      match runCheck tbl reqs with
+      | .refused c => some s!"refused {c} ran -"
+      | .ran is => some (" ".intercalate ("ok" :: "ran" :: is.map toString))
+    | _ => none
+  | _ => none
+
+def bytesOf (t : String) : Option (List Nat) := (unhexBytes t).map (·.map (·.toNat))
+
+/-- `resolve.suggest <n> <word>{n} <req> <didYouMean|->` → `<class> ok|BAD`: what the oracle
+`Suggest.classify` demands of the suggestion for `req` given the trained words, and whether
+the suggestion the implementation gave meets it. -/
+def doSuggest : List String → Option String
+  | n :: r => do
+    let n ← n.toNat?
+    if r.length ≠ n + 2 then none else
+    let words ← (r.take n).mapM bytesOf
+    let req ← bytesOf (r.getD n "")
+    let dym ← bytesOf (r.getD (n + 1) "")
+    let e := TaskModel.Resolve.Suggest.classify words req
+    let cls := match e with
+      | .skip => "skip" | .must _ => "must" | .oneOf _ => "oneof" | .none => "none" | .any => "any"
+    let ok := TaskModel.Resolve.Suggest.meets e (if dym.isEmpty then Option.none else some dym)
+    some (cls ++ (if ok then " ok" else " BAD"))
+  | _ => none
+
 def handle (op : String) (args : List String) : Option String :=
   match op with
   | "resolve.match" => doMatch args
   | "resolve.get" => doGet args
+  | "resolve.run" => doRun args
+  | "resolve.suggest" => doSuggest args
   | _ => none
 
 end Driver.Resolve
